@@ -42,6 +42,7 @@ def make_solvers(sc):
 def collect_streams(sc):
     solvers, kw = make_solvers(sc)
     streams = []
+    actual = []
     for i, s in enumerate(solvers):
         q = ListQ()
         if sc["mode"] == "solve":
@@ -51,6 +52,7 @@ def collect_streams(sc):
         else:
             s.maximize_and_queue(sc["var"], i, q)
         streams.append(q.items)
+        actual.append(problems.user_stats(s))      # what the worker's solver itself reports when it has finished
     ref = BacktrackSolver(problems.to_nucs(sc["P"]), **kw)
     if sc["mode"] == "solve":
         seq = [[int(v) for v in x] for x in ref.find_all()]
@@ -59,7 +61,7 @@ def collect_streams(sc):
         r = ref.minimize(sc["var"]) if sc["mode"] == "min" else ref.maximize(sc["var"])
         seq = []
         opt = None if r is None else int(r[sc["var"]])
-    return {"id": sc["id"], "streams": streams, "seq": seq, "seqopt_none": opt is None, "seqopt": opt if opt is not None else 0}
+    return {"id": sc["id"], "streams": streams, "actual": actual, "seq": seq, "seqopt_none": opt is None, "seqopt": opt if opt is not None else 0}
 
 
 class DummySolver:
